@@ -61,6 +61,12 @@ impl Counter {
     pub fn vx_entry_or_default(&mut self, k: Hash) -> (r: &mut usize)
         ensures *r == (if old(self)@.contains_key(k) { old(self)@[k] } else { 0usize }), final(self)@ == old(self)@.insert(k, *final(r))
     { unimplemented!() }
+    #[verifier::external_body]
+    pub fn get(&self, k: &Hash) -> (r: Option<&usize>)
+        ensures r.is_some() == self@.contains_key(*k), r.is_some() ==> *r.unwrap() == self@[*k]
+    { unimplemented!() }
+    #[verifier::external_body]
+    pub fn contains_key(&self, k: &Hash) -> (b: bool) ensures b == self@.contains_key(*k) { unimplemented!() }
     // `counter[&k]` (panics if absent)
     #[verifier::external_body]
     pub fn vx_index(&self, k: &Hash) -> (r: usize)
@@ -267,6 +273,8 @@ impl HeadReqs {
     { unimplemented!() }
     #[verifier::external_body]
     pub fn is_empty(&self) -> (b: bool) ensures b == (self@.len() == 0) { unimplemented!() }
+    #[verifier::external_body]
+    pub fn len(&self) -> (n: usize) ensures n == self@.len() { unimplemented!() }
     // `drain(..)`: hands out every waiting caller, front to back, and leaves the queue empty
     #[verifier::external_body]
     pub fn drain(&mut self, all: std::ops::RangeFull) -> (d: Drain)
